@@ -24,6 +24,7 @@ def run(prog, world, sem, rep):
     rep.rule("C13.a", "RemoveValidator is owner-only (every success exit behind sender == Config.owner)", 1)
     rep.rule("C13.b", "the validator is removed from the registry before the remaining validators are counted; every success exit is behind the "
              "observation that the remaining list is not empty", 2)
+    rep.rule("C13.f", "a successful RemoveValidator has removed the registry entry: no success exit is reachable around the removal", 1)
     rep.rule("C13.c", "the amount redistributed is the hub's whole delegation on that validator (query_delegation(Config.hub_contract, address).amount.amount); "
              "targets are remaining[i].address paired by index with plan[i]; source = the removed address; coin denom = the delegation's denom", 4)
     rep.rule("C13.d", "messages: RedelegateProxy then UpdateGlobalIndex, both to Config.hub_contract without funds; the only message-less success is on "
@@ -50,6 +51,10 @@ def run(prog, world, sem, rep):
         ok = be.cfg.dominates(rm[0], cbb) and keyl is not None and keyl[0] == "param" and keyl[4] == ("address",)
         det = "remove(%s) at line %d %s the recount at line %d" % (keyl[4] if keyl else None, h.body.blocks[rm[0]].term.line, "dominates" if be.cfg.dominates(rm[0], cbb) else "does not dominate", h.body.blocks[cbb].term.line)
     rep.ob("C13.b", "remove precedes recount", ok, det, where(h.body))
+    r0 = be.cfg.reach([0], stop=set(rm))
+    oks0 = [bb for (bb, idx, kind, x) in sem.ret_sites(be) if kind == "ok" and bb in h.blocks]
+    rep.ob("C13.f", "every success exit passes the registry removal", bool(rm) and bool(oks0) and not any(b in r0 for b in oks0),
+           "RemoveValidator can report success without having removed the validator from the registry" if (not rm or any(b in r0 for b in oks0)) else "all success exits after REGISTRY.remove", where(h.body))
     cpath = counters[0].body.path if counters else None
 
     def fne(f, resolve):
